@@ -69,3 +69,37 @@ def check_site(ctx, rep, rule, fnpath, what):
         rep.ob(rule, f'{what}/{hf}', ok,
                f'{what} under {hf}: constructs {hashers}, keeps digest bytes {ranges}; expected {want_h}-256 and bytes [{want_r[0]}..{want_r[1]})',
                fn.loc(), cname, sample=(hf == 'keccak_160_lsb'))
+
+
+def is_hash_helper(db, path):
+    """a workspace function that is one application of the configured hasher to its (only) byte argument:
+    new(); update(arg 1); finalize -- nothing else that changes bytes. Calls of it count as hash applications."""
+    fn = db.fns.get(path)
+    if fn is None or not fn.has_mir or fn.compact or fn.arg_count != 1:
+        return False
+    T = exprtree.Trees(db, fn)
+    names = [t['f'].get('name') for _, t in fn.calls()]
+    if names.count('update') != 1 or names.count('finalize') != 1 or \
+            sum(1 for _, t in fn.calls() if t['f'].get('name') == 'new' and 'Digest' in (t['f'].get('path') or '')) != 1:
+        return False
+    if set(names) - {'new', 'update', 'finalize', 'to_vec', 'as_slice', 'into', 'deref', 'as_ref', 'from', 'clone', 'to_owned'}:
+        return False
+    for _, t in fn.calls():
+        if t['f'].get('name') == 'update' and T.operand(t['args'][1]) != ('arg', 1):
+            return False
+    return 'finalize' in exprtree.show(T.local(0))
+
+
+def applications(db, fn):
+    """hash applications performed in fn itself, in block order: ('inline', block of the update call, operand hashed) for
+    a hasher updated in fn, ('helper', block, operand) for a call of a hash helper"""
+    out = []
+    for bi, t in fn.calls():
+        nm = t['f'].get('name')
+        if nm == 'update' and 'digest' in (t['f'].get('path') or '').lower() and len(t['args']) > 1:
+            out.append(('inline', bi, t['args'][1], t))
+        else:
+            r = t['f'].get('resolved') if t['f'].get('is_resolved') else None
+            if r and is_hash_helper(db, r) and t.get('args'):
+                out.append(('helper', bi, t['args'][0], t))
+    return sorted(out, key=lambda x: x[1])
